@@ -12,6 +12,8 @@ import os, re, json, time, subprocess, shutil
 import z3
 from common import (tier, log, write_evidence, known_findings, finish, repo_fingerprint, REPLAYS, REPO, BUILD, run, env_offline)
 from smt import Query, Inconclusive, read_repo, extract_fn, rust_str_literal, NATIVE
+import jslit
+import qtmod
 
 PROP = "C13"
 F_SRC = "crates/artifact_content/src/generate_updatable_and_parameter_type.rs"
@@ -45,7 +47,16 @@ def extract():
     if not m:
         raise Inconclusive("encoding not regenerable: write_optional_description has an unrecognised frame")
     stmts = [s.strip() for s in m.group(1).split(";") if s.strip()]
+    REPL = r"""(?:\.replace\(\s*(?:'(?:[^'\\]|\\.)+'|"(?:[^"\\]|\\.)*")\s*,\s*"(?:[^"\\]|\\.)*"\s*\))"""
+
+    def chain(text):
+        reps = []
+        for mm in re.finditer(r"""\.replace\(\s*(?:'((?:[^'\\]|\\.)+)'|"((?:[^"\\]|\\.)*)")\s*,\s*"((?:[^"\\]|\\.)*)"\s*\)""", text):
+            reps.append((rust_str_literal(mm.group(1) if mm.group(1) is not None else mm.group(2)), rust_str_literal(mm.group(3))))
+        return reps
+
     pieces = []
+    bound = {}          # let-bound names -> replace chain applied to the description so far
     for st in stmts:
         if re.fullmatch(r'query_type_declaration\.push_str\(&"  "\.repeat\(indentation_level as usize\)\.to_string\(\)\)', st):
             pieces.append(("indent",))
@@ -58,74 +69,45 @@ def extract():
         if mm:
             pieces.append(("lit", rust_str_literal(mm.group(1))))
             continue
-        mm = re.fullmatch(r'query_type_declaration\.push_str\(&?description\.lookup\(\)((?:\.replace\("(?:[^"\\]|\\.)*", "(?:[^"\\]|\\.)*"\))*)\)', st)
-        if mm:
-            reps = [(rust_str_literal(a), rust_str_literal(b)) for a, b in re.findall(r'\.replace\("((?:[^"\\]|\\.)*)", "((?:[^"\\]|\\.)*)"\)', mm.group(1))]
-            pieces.append(("desc", reps))
+        mm = re.fullmatch(r'let (\w+)(?:: [\w&<> ]+)? = &?(description\.lookup\(\)|\w+)(%s*)(?:\.to_string\(\))?' % REPL, st)
+        if mm and (mm.group(2) == "description.lookup()" or mm.group(2) in bound):
+            base = [] if mm.group(2) == "description.lookup()" else bound[mm.group(2)]
+            bound[mm.group(1)] = base + chain(mm.group(3))
+            continue
+        mm = re.fullmatch(r'query_type_declaration\.push_str\(&?(description\.lookup\(\)|\w+)(%s*)\)' % REPL, st)
+        if mm and (mm.group(1) == "description.lookup()" or mm.group(1) in bound):
+            base = [] if mm.group(1) == "description.lookup()" else bound[mm.group(1)]
+            pieces.append(("desc", base + chain(mm.group(2))))
             continue
         raise Inconclusive("encoding not regenerable: statement %r of write_optional_description is outside the supported subset" % st)
     if [p[0] for p in pieces].count("desc") != 1:
         raise Inconclusive("encoding not regenerable: the description must be written exactly once")
+    for p_ in pieces:
+        if p_[0] == "desc" and any(len(a) == 0 for a, b in p_[1]):
+            raise Inconclusive("encoding not regenerable: replace of an empty pattern")
     return pieces
 
 
-def layouts(L, n):
-    """all sets of non-overlapping match starts for a pattern of length n in a text of length L (leftmost-first)"""
-    out = []
-    def rec(i, chosen):
-        if i > L - n:
-            out.append(list(chosen))
-            return
-        rec(i + 1, chosen)
-        rec(i + n, chosen + [i])
-    if n <= 0 or n > L:
-        return [[]]
-    rec(0, [])
-    return out
-
-
-def emitted_cases(pieces, d, indent_str):
-    """d: list of 8-bit z3 terms (the description, concrete length). Yields (constraints, emitted text as a python list of
-    8-bit terms) for every replace layout; the layouts are exhaustive and mutually exclusive."""
-    B8 = lambda ch: z3.BitVecVal(ord(ch), 8)
+def emitted_cases(ctx, pieces, d, indent_str):
+    """d: list of 16-bit z3 terms or ints (the description). Returns [(path condition, emitted text as a list of ints / terms)]:
+    the replace chain is executed symbolically (lib/jslit.sym_replace: leftmost non-overlapping matches, every data-dependent
+    branch forked and pruned by a solver query), so the cases are exhaustive and mutually exclusive."""
     reps = [p[1] for p in pieces if p[0] == "desc"][0]
-    if len(reps) > 1:
-        raise Inconclusive("encoding not regenerable: more than one .replace() on the description")
-    L = len(d)
-    if reps:
-        a, b = reps[0]
-        n = len(a)
-        if n == 0:
-            raise Inconclusive("encoding not regenerable: replace of an empty pattern")
-        hit = [z3.And(*[d[i + k] == B8(a[k]) for k in range(n)]) if i + n <= L else z3.BoolVal(False) for i in range(L)]
-        cases = layouts(L, n)
-    else:
-        a, b, n, hit, cases = "", "", 0, [], [[]]
-    for P in cases:
-        cs, body = [], []
-        covered = set()
-        for i in P:
-            covered.update(range(i + 1, i + n))
-        i = 0
-        for i in range(L):
-            if i in P:
-                cs.append(hit[i])
-                body += [B8(ch) for ch in b]
-            elif i in covered:
-                continue
-            else:
-                if reps:
-                    cs.append(z3.Not(hit[i]))
-                body.append(d[i])
+    paths = [([], list(d))]
+    for a, b in reps:
+        paths = jslit.sym_replace(ctx, paths, [ord(c) for c in a], [ord(c) for c in b])
+    out = []
+    for cons, body in paths:
         text = []
         for p in pieces:
             if p[0] == "indent":
-                text += [B8(ch) for ch in indent_str]
+                text += [ord(ch) for ch in indent_str]
             elif p[0] == "lit":
-                text += [B8(ch) for ch in p[1]]
+                text += [ord(ch) for ch in p[1]]
             else:
                 text += body
-        yield cs, text
+        out.append((cons, text))
+    return out
 
 
 def concrete_emitted(pieces, desc, indent_str):
@@ -195,54 +177,58 @@ def main():
     B = {"len": 5} if T_ == "quick" else {"len": 8}
     violations, known_lines, infra, queries, samples = [], [], [], [], []
     n_valid = 0
+    fork_queries = 0
     kf = known_findings(PROP)
     known = {k: t for kind, k, t in kf if kind == "known" and k}
     pieces = None
+    QB = None
     os.makedirs(os.path.join(REPLAYS, PROP), exist_ok=True)
     try:
         binary = build_driver()
         pieces = extract()
         # ---- translator validation: the encoding's emitted text equals the real function's on probes
-        probes = ["a description", "x", "two\nlines", "a */ b */", "**//*/", "slash / and star * apart", "ends with star*", "/starts with slash", "tab\tand \"quotes\" and `ticks`"]
+        probes = ["a description", "x", "two\nlines", "a */ b */", "**//*/", "slash / and star * apart", "ends with star*", "/starts with slash", "tab\tand \"quotes\" and `ticks`", "cr\r\nlf", "*\r/ and *\\/"]
         for ind in (0, 1, 3):
             real = run_driver(binary, probes, ind)
             for pr, rt in zip(probes, real):
                 # (1) the python translation of the extracted pieces equals the real function
                 if concrete_emitted(pieces, pr, "  " * ind) != rt:
                     raise Inconclusive("translator validation failed: translation differs from the real function on %r (indent %d): real %r" % (pr, ind, rt))
-                # (2) the symbolic case split, pinned to the probe, has exactly one feasible layout and it yields the real text
-                if len(pr) > 9:
-                    n_valid += 1
-                    continue        # the number of layouts grows like Fibonacci(len); long probes validate the translation (1) only
-                feas = 0
-                for cs, text in emitted_cases(pieces, [z3.BitVecVal(ord(c), 8) for c in pr], "  " * ind):
-                    sv = z3.SimpleSolver()
-                    sv.add(*cs)
-                    if str(sv.check()) == "sat":
-                        feas += 1
-                        got = "".join(chr(z3.simplify(t).as_long()) for t in text)
-                        if got != rt:
-                            raise Inconclusive("translator validation failed: layout encoding yields %r, real %r" % (got, rt))
-                if feas != 1:
-                    raise Inconclusive("translator validation failed: %d feasible layouts for a concrete description" % feas)
+                # (2) the symbolic executor, pinned to the probe, has exactly one feasible path and it yields the real text
+                ctxv = jslit.Ctx([])
+                cases = emitted_cases(ctxv, pieces, [ord(c) for c in pr], "  " * ind)
+                if len(cases) != 1:
+                    raise Inconclusive("translator validation failed: %d feasible paths for a concrete description" % len(cases))
+                got = "".join(chr(t) for t in cases[0][1])
+                if got != rt:
+                    raise Inconclusive("translator validation failed: symbolic replace yields %r, real %r" % (got, rt))
                 n_valid += 1
         samples.append({"translator_validation": [probes[3], real[3]]})
 
-        ALPHA = [ord(c) for c in "*/ \na\\"]
+        reps_ = [p_[1] for p_ in pieces if p_[0] == "desc"][0]
+        # the alphabet contains every character that matters to comment lexing plus every character the transform mentions
+        ALPHA = sorted(set(ord(c) for c in "*/ \na\\") | set(ord(c) for a_, b_ in reps_ for c in a_ + b_))
         for ind in (0, 1):
             for L in range(0, B["len"] + 1):
                 q = Query("C13_breakout_len%d_indent%d" % (L, ind), solver_timeout_s=120)
-                d = [z3.BitVec("d%d" % i, 8) for i in range(L)]
-                for c in d:
-                    q.add(z3.Or(*[c == v for v in ALPHA]))
+                d = [z3.BitVec("d%d" % i, jslit.W) for i in range(L)]
+                cls = [z3.Or(*[c == v for v in ALPHA]) for c in d]
+                q.add(*cls)
+                ctxq = jslit.Ctx(cls)
                 opener_end = ind * 2 + 2
                 cases = []
-                for cs, text in emitted_cases(pieces, d, "  " * ind):
+                for cs, text in emitted_cases(ctxq, pieces, d, "  " * ind):
                     # lexical fact: the comment opened at the start ends at the FIRST "*/" at or after offset opener_end; the emitted
                     # text is one comment plus a newline iff that terminator is the final one, i.e. iff no "*/" starts before len-3
                     n_ = len(text)
-                    early = [z3.And(text[j] == ord("*"), text[j + 1] == ord("/")) for j in range(opener_end, n_ - 3)]
-                    cases.append(cs + [z3.Or(*early) if early else z3.BoolVal(False)])
+                    early = []
+                    for j in range(opener_end, n_ - 3):
+                        e1, e2 = jslit.eqc(text[j], ord("*")), jslit.eqc(text[j + 1], ord("/"))
+                        if e1 is False or e2 is False:
+                            continue
+                        early.append(z3.And(*[e for e in (e1, e2) if e is not True]) if not (e1 is True and e2 is True) else z3.BoolVal(True))
+                    cases.append(list(cs) + [z3.Or(*early) if early else z3.BoolVal(False)])
+                fork_queries += ctxq.n_queries
                 r = q.check_cases(cases, per_case_timeout_s=60, nproc=8)
                 queries.append(q.summary())
                 if r == "unsat":
@@ -273,31 +259,46 @@ def main():
                 break
         n_unsat = len([q for q in queries if q["result"] == "unsat"])
         log("  %d queries, %d unsat, %d violations" % (len(queries), n_unsat, len(violations)))
+        # ---- clause B: the query_text module is one well-formed string literal
+        QB = qtmod.run_clause("syntax", T_, PROP)
+        violations += QB["violations"]
+        infra += QB["infra"]
     except Inconclusive as e:
         infra.append(str(e))
 
     n_unsat = len([q for q in queries if q["result"] == "unsat"])
     cov = {
-        "explanation": "One clause of C13: a description cannot terminate the /** */ comment it is written into. The push sequence of "
-                       "write_optional_description is re-read from source into a z3 string term; per description length the solver decides whether the "
+        "explanation": "Two clauses of C13. (A) a description cannot terminate the /** */ comment it is written into: the push sequence and replace chain of "
+                       "write_optional_description are re-read from source and executed symbolically over 16-bit characters; per description length the solver decides whether the "
                        "first comment terminator of the emitted text can precede the final one; models are replayed with the real function and judged by "
-                       "node's parser with the text in member position of an object literal.",
-        "functions_encoded": ["artifact_content::generate_updatable_and_parameter_type::write_optional_description"],
+                       "node's parser with the text in member position of an object literal. (B) the query_text module is one well-formed string literal for every "
+                       "string literal argument the iso lexer accepts (see clause_b_query_text_module); models are replayed on the real module text and judged by node's import().",
+        "functions_encoded": ["artifact_content::generate_updatable_and_parameter_type::write_optional_description",
+                              "artifact_content: the query_text module template (entrypoint_artifact.rs, imperatively_loaded_fields.rs)",
+                              "graphql_network_protocol::query_text string arm + Pretty separators", "NonConstantValueInner::to_alias_str_chunk (string arm)",
+                              "isograph_lang_parser StringToken classes"],
         "extracted": pieces,
-        "source_fingerprint": repo_fingerprint([F_SRC]),
+        "clause_b_query_text_module": None if QB is None else {
+            "question": "for every string literal argument (units: plain character of the lexer's class / two-character escape / \\uXXXX, all characters symbolic) the module "
+                        "export default '<operation text>'; is one well-formed single-quoted literal ending at the final quote (strict-mode ECMAScript lexer executed symbolically)",
+            "extracted": QB["extracted"], "bounds": QB["bounds"], "shapes": QB["n_shapes"], "lexer_paths": QB["n_paths"], "solver_queries": QB["n_queries"],
+            "solver_time_s": round(QB["solver_s"], 2), "shapes_without_malformed_path": QB["n_unsat"], "translator_validation_inputs_agreeing": QB["n_valid"], "samples": QB["samples"][:3]},
+        "source_fingerprint": repo_fingerprint([F_SRC] + qtmod.FILES),
         "bounds": dict(B, alphabet="* / space newline a backslash", indentation="levels 0 and 1"),
-        "queries": queries[:12], "queries_discharged": len(queries),
-        "solver_time_s": round(sum(q["solver_s"] for q in queries), 2),
-        "translator_validation_inputs_agreeing": n_valid,
-        "evaluations": len(queries) + n_valid, "distinct_nontrivial": n_unsat + len(samples),
+        "queries": queries[:12], "queries_discharged": len(queries) + fork_queries + (QB["n_queries"] if QB else 0),
+        "solver_time_s": round(sum(q["solver_s"] for q in queries) + (QB["solver_s"] if QB else 0), 2),
+        "translator_validation_inputs_agreeing": n_valid + (QB["n_valid"] if QB else 0),
+        "evaluations": len(queries) + n_valid + ((QB["n_shapes"] + QB["n_valid"]) if QB else 0), "distinct_nontrivial": n_unsat + len(samples) + (QB["n_unsat"] if QB else 0),
         "rule": "evaluations = SMT queries (one per description length and indentation) + probe descriptions on which the encoding equals the real function; "
-                "distinct_nontrivial = queries answered unsat + distinct models replayed natively",
+                "distinct_nontrivial = queries answered unsat + distinct models replayed natively; clause B adds one evaluation per string shape and per probe, "
+                "and one distinct_nontrivial per shape all of whose lexer paths are well-formed",
         "samples": samples[:6] or [{"note": "none"}],
         "exhaustive": False,
         "known_findings_reported": known_lines,
     }
     assumptions = [
-        "PARTIAL: only doc comments written by write_optional_description; every other artifact template, JSON artifacts and import closure need a whole compile and a TypeScript parser and are outside the claim",
+        "PARTIAL: only (A) doc comments written by write_optional_description and (B) the query_text module around string literal arguments (two contexts: scalar argument, object entry; "
+        "string literals of at most `units` units; variable default values and names are not strings of the iso lexer's class and are outside the claim); every other artifact template, JSON artifacts and import closure need a whole compile and a TypeScript parser and are outside the claim",
         "lexical rule used: a block comment ends at the first '*/' after its opener (ECMAScript / TypeScript); the replay oracle is node's parser with the emitted text in member position of an object literal (the JavaScript twin of the object type literal the compiler emits)",
         "descriptions up to len characters over an alphabet containing every character that matters to comment lexing",
         "native replay uses a driver built with the verification hooks on (RUSTFLAGS=--cfg kani), which only adds the wrapper",
